@@ -2248,7 +2248,7 @@ pub fn main(tier: Tier) -> i32 {
     let coverage = json!({
         "evaluations": all.evaluations + real.cases,
         "distinct_nontrivial": all.distinct_fault_logs.len(),
-        "rule": "one evaluation = one call of create_shader_module[_embedded] with rustfmt:true against the simulated formatter process under one plan (fault script x pipe capacities x relative speeds x shader x options); systematic block first, then runs drawn from VERIF_SEED; distinct_nontrivial = number of distinct event-log hashes (parent seam calls + child ops + verdict, with virtual timestamps) among runs in which at least one fault actually fired (spawn error, non-zero exit, kill, empty output on exit 0, EPIPE)",
+        "rule": "one evaluation = one run in a process of its own: one call of create_shader_module[_embedded] with rustfmt:true (one run in six: a sequence of two or three calls, every one judged) against the simulated formatter process(es) under one plan (fault script x pipe capacities x relative speeds x short reads x exit window x later processes x shader x options x environment); a run whose driver asks for unset environment variables is executed again with them set; systematic block first, then runs drawn from VERIF_SEED; distinct_nontrivial = number of distinct event-log hashes (parent seam calls + child ops + verdict, with virtual timestamps) among runs in which at least one fault actually fired (spawn error, non-zero exit, kill, empty output on exit 0, EPIPE)",
         "samples": samples,
         "exhaustive": false,
         "systematic_cases": sys_eval,
